@@ -98,6 +98,11 @@ def run(ctx):
                 for so, m in NAMES:
                     cases.append({"fn": "response", "phases": [hexf(x) for x in ph], "adat": [hexf(a) for a in ad],
                                   "signal_operator": so, "measurement": m, "timeout": 300})
+        # integer-typed phase lists (Python ints / int ndarray) with entries beyond +-pi
+        for _k in range(4 if quick else 24):
+            _ph = [float(rng.choice([-7, -5, -4, 4, 6, 9, 1, 0, -2, 3])) for _ in range(rng.randint(1, 6))]
+            cases.append({"fn": "response", "phases": [hexf(x) for x in _ph], "adat": [hexf(a) for a in gen_adat(rng)], "signal_operator": rng.choice(["Wx", "Wz"]),
+                          "measurement": rng.choice(["x", "z"]), "phis_as_int": "list" if _k % 2 else "array", "timeout": 120})
         for so, m in BAD:
             ph = gen_phases(rng, 3)
             cases.append({"fn": "response", "phases": [hexf(x) for x in ph], "adat": [hexf(0.3)],
